@@ -197,6 +197,12 @@ func runCheck(root, prop, tier string, makeBaseline, verbose, keep bool, onlyFn 
 	work := filepath.Join(root, ".work", prop)
 	os.RemoveAll(work)
 	eng.discharge(obls, work, timeout, tier == "thorough", 14)
+	// the search for failing inputs (models, guesses, bounded stand-in runs)
+	// has a wall-clock budget; what is not found in time is reported without input
+	searchDeadline = time.Now().Add(120 * time.Second)
+	if tier == "thorough" {
+		searchDeadline = time.Now().Add(900 * time.Second)
+	}
 	// ground checks of the spec functions these contracts use
 	usedSpecFiles := map[string]bool{}
 	for _, o := range obls {
@@ -513,6 +519,9 @@ func writeReplay(eng *Engine, dir, prop string, o *Obligation) (string, bool) {
 	verdict := ""
 	var attempts []string
 	try := func(label string) bool {
+		if time.Now().After(searchDeadline) {
+			return false
+		}
 		rp := safeReplay(eng, o, dir, name)
 		if rp == nil {
 			return false
@@ -537,6 +546,10 @@ func writeReplay(eng *Engine, dir, prop string, o *Obligation) (string, bool) {
 	if o.Result.Status == "sat" {
 		replayed = try("solver model")
 	}
+	if time.Now().After(searchDeadline) {
+		searchable = false
+		rec["search"] = "skipped: the time budget for finding failing inputs was used up"
+	}
 	if !replayed && searchable && o.Result.Status != "sat" && o.Result.Status != "unsat" {
 		if wf, ok := weakenedModel(origQuery); ok {
 			o.queryFile, o.weakened, o.fullQuery = wf, true, origQuery
@@ -546,7 +559,7 @@ func writeReplay(eng *Engine, dir, prop string, o *Obligation) (string, bool) {
 		}
 	}
 	if !replayed && searchable && o.Result.Status != "unsat" {
-		for round := int64(0); round < 2 && !replayed; round++ {
+		for round := int64(0); round < 2 && !replayed && time.Now().Before(searchDeadline); round++ {
 			if pins, ok := concretize(o, seed+round*7919, 64,filepath.Join(dir, "conc")); ok {
 				o.pins = pins
 				rec["concretised"] = true
@@ -581,6 +594,9 @@ func boundedSearch(eng *Engine, fn *ssa.Function, con *Contract, work, replayDir
 		return p, p != ""
 	}
 	done[con.Key] = ""
+	if time.Now().After(searchDeadline) {
+		return "", false
+	}
 	ctx, err := eng.verifyFunction(fn, con, boundedQ+1)
 	if err != nil || ctx == nil {
 		return "", false
@@ -618,6 +634,9 @@ func boundedSearch(eng *Engine, fn *ssa.Function, con *Contract, work, replayDir
 	}
 	return "", false
 }
+
+// searchDeadline: no new search for a failing input starts after this time.
+var searchDeadline = time.Now().Add(time.Hour)
 
 // baselineUndecided: obligations that do not discharge on the pinned tree.
 var baselineUndecided = map[string]bool{}
